@@ -22,11 +22,14 @@ from infretis.classes.orderparameter import OrderParameter
 
 
 class LatticeOP(OrderParameter):
-    def __init__(self):
+    def __init__(self, origin=0.0):
+        # origin: the order parameter is the lattice position minus this constant (a translated copy of the same system;
+        # multiples of 1/2, so exact) - lets an interface or the cap sit on 0.0
         super().__init__(description="lattice position", velocity=False)
+        self.origin = float(origin)
 
     def calculate(self, system):
-        return [float(system.pos[0][0])]
+        return [float(system.pos[0][0]) - self.origin]
 
 
 def read_frames(filename):
